@@ -23,6 +23,7 @@ import (
 	corev1 "k8s.io/api/core/v1"
 	kerrors "k8s.io/apimachinery/pkg/api/errors"
 	metav1 "k8s.io/apimachinery/pkg/apis/meta/v1"
+	"k8s.io/apimachinery/pkg/runtime"
 	"k8s.io/apimachinery/pkg/types"
 	"k8s.io/utils/ptr"
 	"sigs.k8s.io/controller-runtime/pkg/client"
@@ -265,7 +266,7 @@ func (c *PTComposer) Compose(ctx context.Context, xr *composite.Unstructured, re
 			continue
 		}
 
-		o := []resource.ApplyOption{resource.MustBeControllableBy(xr.GetUID()), usage.RespectOwnerRefs()}
+		o := []resource.ApplyOption{resource.MustBeControllableBy(xr.GetUID()), usage.RespectOwnerRefs(), atObservedResourceVersion()}
 		o = append(o, mergeOptions(filterPatches(t.Patches, patchTypesFromXR()...))...)
 		if err := c.client.Apply(ctx, cd, o...); err != nil {
 			if kerrors.IsInvalid(err) {
@@ -541,6 +542,28 @@ func (a *GarbageCollectingAssociator) AssociateTemplates(ctx context.Context, cr
 	}
 
 	return tas, nil
+}
+
+// atObservedResourceVersion makes the patch of an existing composed resource
+// conditional on the resource version the other apply options were evaluated
+// against. The existing resource is typically read from a cache. Without this
+// the controller reference check could pass on a stale copy, and the patch
+// would then replace the owner references of a resource that another
+// controller has adopted since. The API server answers a patch at a stale
+// resource version with a conflict, which the reconciler retries.
+func atObservedResourceVersion() resource.ApplyOption {
+	return func(_ context.Context, current, desired runtime.Object) error {
+		c, ok := current.(metav1.Object)
+		if !ok {
+			return nil
+		}
+		d, ok := desired.(metav1.Object)
+		if !ok {
+			return nil
+		}
+		d.SetResourceVersion(c.GetResourceVersion())
+		return nil
+	}
 }
 
 // Observation is the result of composed reconciliation.
